@@ -143,8 +143,10 @@ T = {
         "CacheProxy against the Cache interface with the view (cmeta, cdata): a stored value is served, ready, under its query; a refused value "
         "leaves nothing stale; remove removes from both levels; the conditional wrappers (if_attribute_equal / if_contains / if_not_contains: "
         "get, remove, store) read the wrapped cache and either store into it unchanged or refuse and leave nothing stale, for every outcome of the "
-        "attribute test; StoreCache.to_path (nested layout) is injective (lemma). File, SQL, obfuscating / encrypting and store-backed caches "
-        "are explored against the reference map.",
+        "attribute test; the store-backed cache (get, get_metadata, contains, remove, store, store_metadata) touches its backing store only at "
+        "to_path(key), which is injective in the nested layout (lemma) - so operations on one key never affect another -, serves only an entry "
+        "whose stored metadata says ready and whose bytes the store holds, and refuses error states. File, SQL and obfuscating / encrypting "
+        "caches, the flat layout and the serialisation itself are explored against the reference map.",
         "Interface clause `a cached state carries the standard metadata keys` is assumed of every cache, not proved on the implementations. "
         + BOUNDED),
 "C14": ("proof",
